@@ -52,3 +52,37 @@ for _off in range(8):
       timeout={"quick": 600, "thorough": 1800},
       **dict(_c18, functions=["cjet_is_word_sequence_valid_auto_alligned", "cjet_is_word64_sequence_valid",
                               "cjet_is_byte_sequence_valid", "is_byte_valid"]))
+
+# ------------------------------------------------------------------------------------------------ C17
+PROPERTY_NOTES["C17"] = {
+    "composition": "Inv (hop bits point to live slots whose home is that bucket; every live slot is announced by its "
+                   "home; keys unique; free slots zeroed; hop bits below add_range) holds for the created table and is "
+                   "preserved by put/remove from ANY Inv table with ANY hash assignment (step obligations), and on Inv "
+                   "tables put/get/remove have exact map semantics for the operated key and an arbitrary other key. By "
+                   "induction this holds after every operation sequence. hash_range shows the real hash functions map "
+                   "into the table for orders 2..13, which is all the step lemmas use of them.",
+    "outside": "table orders >= 4 in quick (order 3 in thorough), hence the production orders 6 and 13 and the "
+               "displacement branch find_closer_entry (unreachable below order 6: free_distance < add_range <= 16 < 32); "
+               "key universe of 6 keys; single-letter string keys.",
+}
+_KT = {0: "u32", 1: "u64", 2: "str"}
+_MODE = {0: "put", 1: "get", 2: "remove"}
+_REACH = {0: ["put_overwrite", "put_insert", "put_full"], 1: ["get_hit", "get_miss"], 2: ["remove_hit", "remove_miss"]}
+for _order, _tier in ((2, "quick"), (3, "thorough")):
+    for _kt in (0, 1, 2):
+        for _mode in (0, 1, 2):
+            O(id="C17.step_%s_%s_o%d" % (_MODE[_mode], _KT[_kt], _order), props=["C17"] + (["C04", "C03"] if _kt == 2 and _order == 2 else []),
+              harness="harness/c17_hashtable.c", tier=_tier,
+              defines=["KT=%d" % _kt, "MODE=%d" % _mode, "ORDER=%d" % _order], unwind=2 * (1 << _order) + 2,
+              unwindset={"strcmp.0": 3}, reach=_REACH[_mode],
+              functions=["hashtable_%s_T (DECLARE_HASHTABLE_%s)" % (_MODE[_mode], _KT[_kt].upper())],
+              symbolic="whole table (hop bitmaps, keys, values), home bucket of each of 6 keys, operated key, observed key, value",
+              stubs=["hs_hash32/hs_hash6432shift replaced by an arbitrary function key -> bucket (solver variables)"],
+              assumes=["pre-state satisfies the representation invariant Inv (inductive: proved preserved by put/remove)"],
+              bounds="order %d (%d slots), 6 keys" % (_order, 1 << _order),
+              timeout={"quick": 600, "thorough": 3000},
+              label_props={} )
+O(id="C17.hash_range", props=["C17"], harness="harness/c17_hashtable.c", entry="harness_hash_range",
+  defines=["KT=0", "MODE=0", "ORDER=2"], unwind=2,
+  functions=["hs_hash32", "hs_hash6432shift"], symbolic="key (all 2^32 / 2^64), order 2..13", bounds="none",
+  stubs=[], assumes=[])
